@@ -654,16 +654,145 @@ void concurrent(std::uint64_t total)
   vf::count("log/conc/distinct-interleaving-signatures(per-partition)", signatures.size());
 }
 
+// ------------------------------------------------------------------ spinning lock-free readers
+// level() / enabled() of a log object do not take the context mutex (documented: they may be used from other threads).
+// "Every observed level is one that some sequential ordering of the calls would produce": in every sequential ordering
+// the level of a location is the root level or the level of SOME set on a prefix of it.  Readers spin on the objects while
+// writers set levels on prefixes; any value outside that candidate set - a transient "no level", a torn or stale-foreign
+// value - is a violation.  Weaker than the linearizability check of the recorded histories, but it looks at millions of
+// reads instead of a handful.
+void spinning_readers(std::uint64_t total)
+{
+  std::string e = "log-concurrent-spinning-readers";
+  if (!vf::entry_enabled(e))
+    return;
+  vf::set_entry(e);
+  std::uint64_t per = total / vf::opts().nparts + 1;
+  std::uint64_t reads_total = 0, rounds_with_transitions = 0;
+  for (std::uint64_t h = 0; h < per; ++h)
+  {
+    if (!vf::begin_case("seed=%" PRIu64 " part=%u round=%" PRIu64, vf::opts().seed, vf::opts().part, h))
+      continue;
+    vf::sample_case(1);
+    vf::rng g(vf::seed_for(e, h));
+    sinks_t sinks;
+    int const rootlvl = static_cast<int>(g.below(NLEVELS)); // a real level: "no level" is never a candidate below
+    l::context ctx{toopt(rootlvl), make_streams(sinks)};
+    int const top = static_cast<int>(g.below(3)), mid = static_cast<int>(g.below(3)), leaf = static_cast<int>(g.below(3));
+    std::vector<Loc> const prefixes{Loc{}, Loc{top}, Loc{top, mid}, Loc{top, mid, leaf}};
+    // objects at depth 1, 2, 3 below the written prefixes, created before the threads start
+    std::vector<std::pair<Loc, std::unique_ptr<l::object>>> objs;
+    for (std::size_t d = 1; d < prefixes.size(); ++d)
+    {
+      Loc parent(prefixes[d].begin(), prefixes[d].end() - 1);
+      objs.emplace_back(prefixes[d], std::make_unique<l::object>(fcppt::make_ref(ctx), mkloc(parent),
+                                                                 l::parameters{l::name{names[prefixes[d].back()]}, l::format::optional_function{}}));
+    }
+    unsigned const nsets = 40 + static_cast<unsigned>(g.below(120));
+    struct planned
+    {
+      std::size_t prefix;
+      int level;
+    };
+    std::vector<planned> plan[2];
+    std::array<std::array<bool, NLEVELS + 1>, 4> candidate{}; // candidate[object depth][level]
+    for (auto &c : candidate)
+      c[static_cast<std::size_t>(rootlvl)] = true;
+    for (auto &pl : plan)
+      for (unsigned i = 0; i < nsets; ++i)
+      {
+        planned const s{g.below(prefixes.size()), static_cast<int>(g.below(NLEVELS))};
+        pl.push_back(s);
+        for (std::size_t d = 1; d < prefixes.size(); ++d)
+          if (s.prefix <= d) // prefixes[s.prefix] is a prefix of the object at depth d
+            candidate[d][static_cast<std::size_t>(s.level)] = true;
+      }
+    std::atomic<bool> stop{false};
+    std::atomic<unsigned> ready{0};
+    struct seen_t
+    {
+      std::array<std::array<std::uint64_t, NLEVELS + 1>, 4> level{};
+      std::array<std::uint64_t, 4> fatal_disabled{};
+      std::uint64_t reads = 0;
+    };
+    seen_t seen[2];
+    std::vector<std::thread> th;
+    for (unsigned w = 0; w < 2; ++w)
+      th.emplace_back([&, w] {
+        ++ready;
+        while (ready.load() < 4)
+        {
+        }
+        for (planned const &s : plan[w])
+          ctx.set(mkloc(prefixes[s.prefix]), toopt(s.level));
+      });
+    for (unsigned r = 0; r < 2; ++r)
+      th.emplace_back([&, r] {
+        ++ready;
+        while (ready.load() < 4)
+        {
+        }
+        seen_t &mine = seen[r];
+        while (!stop.load(std::memory_order_relaxed))
+          for (std::size_t k = 0; k < objs.size(); ++k)
+          {
+            int const lv = fromopt(objs[k].second->level());
+            ++mine.level[k + 1][static_cast<std::size_t>(lv)];
+            if (!objs[k].second->enabled(l::level::fatal))
+              ++mine.fatal_disabled[k + 1];
+            ++mine.reads;
+          }
+      });
+    th[0].join();
+    th[1].join();
+    stop.store(true);
+    th[2].join();
+    th[3].join();
+    VF_COUNT("log/spin/rounds");
+    unsigned distinct_values = 0;
+    for (std::size_t d = 1; d < 4; ++d)
+    {
+      for (int lv = 0; lv <= NLEVELS; ++lv)
+      {
+        std::uint64_t const n = seen[0].level[d][static_cast<std::size_t>(lv)] + seen[1].level[d][static_cast<std::size_t>(lv)];
+        if (n == 0)
+          continue;
+        ++distinct_values;
+        if (!candidate[d][static_cast<std::size_t>(lv)])
+          vf::violation("log/concurrent/lock-free-read/level-no-set-ever-gave", "history",
+                        "object at " + show(prefixes[d]) + " reported level " + std::to_string(lv) + " (" + (lv == NLEVELS ? "none" : "a level") + ") " + std::to_string(n) +
+                            " times while only the root level " + std::to_string(rootlvl) + " and sets of real levels on its prefixes were in play");
+      }
+      // enabled(fatal) is false only under "no level", which is not a candidate here
+      std::uint64_t const nd = seen[0].fatal_disabled[d] + seen[1].fatal_disabled[d];
+      if (nd != 0)
+        vf::violation("log/concurrent/lock-free-read/fatal-disabled-although-every-candidate-level-enables-it", "history",
+                      "object at " + show(prefixes[d]) + ": enabled(fatal) was false " + std::to_string(nd) + " times");
+    }
+    if (distinct_values > 3)
+      ++rounds_with_transitions;
+    reads_total += seen[0].reads + seen[1].reads;
+    vf::note_distinct(vf::hash_mix(vf::hash_str(e), vf::hash_mix(h, distinct_values)));
+    // quiescence: the last set per prefix chain decides - compared with context::get
+    for (std::size_t d = 1; d < 4; ++d)
+      if (fromopt(objs[d - 1].second->level()) != fromopt(ctx.get(mkloc(prefixes[d]))))
+        vf::violation("log/concurrent/spin/object-and-context-disagree-at-quiescence", "history", "object at " + show(prefixes[d]));
+  }
+  vf::count("log/spin/lock-free-reads", reads_total);
+  vf::count("log/spin/rounds-in-which-readers-saw-several-levels", rounds_with_transitions);
+}
+
 void body()
 {
   for (char const *b : {"log/seq/set", "log/seq/set-empty-level", "log/seq/get", "log/seq/create-by-location", "log/seq/create-by-context",
                         "log/seq/create-by-parent", "log/seq/object-level", "log/seq/log-emitted", "log/seq/log-through-a-level-stream-without-formatter", "log/seq/log-suppressed",
                         "log/conc/histories-checked", "log/conc/overlap/set-set", "log/conc/overlap/set-get", "log/conc/overlap/set-create",
                         "log/conc/overlap/create-create", "log/conc/creation-storm-histories", "log/conc/probe/locations-with-several-objects", "log/conc/overlap/set-lockfree-read", "log/conc/lockfree-reads-checked",
-                        "log/conc/quiescent-checks", "log/conc/quiescent-object-levels"})
+                        "log/conc/quiescent-checks", "log/conc/quiescent-object-levels", "log/spin/rounds", "log/spin/rounds-in-which-readers-saw-several-levels"})
     vf::require_bucket(b);
   sequential(vf::tier<std::uint64_t>(20000, 1000000));
   concurrent(vf::tier<std::uint64_t>(12000, 400000));
+  spinning_readers(vf::tier<std::uint64_t>(1600, 60000));
 }
 }
 
